@@ -87,8 +87,9 @@ func stopHistOpt() gen.HistOpt {
 	o := gen.DefaultHistOpt(limits(), false)
 	o.MaxUnits, o.MaxItems, o.MaxRowsEv, o.MaxRows, o.MaxCols, o.MaxTables = 4, 1, 1, 2, 2, 2
 	o.BigBase = false
-	o.Rotations = 0
-	o.Ignorables = false
+	o.Rotations = 1
+	o.Ignorables = true
+	o.Scale = false
 	o.Kinds = []hist.UnitKind{hist.UTxXID, hist.UTxCommit, hist.UDDL, hist.UAutoRows}
 	o.Col = gen.ColumnOpt{Only: []byte{refenc.TLong, refenc.TVarchar}, NoHeavy: true}
 	return o
@@ -101,7 +102,7 @@ func drawStop(rt *rapid.T, o gen.HistOpt, kinds []string) *StopCase {
 	}
 	if rapid.IntRange(0, 11).Draw(rt, "long_history") == 0 {
 		// a long backlog: hundreds of packets can queue up behind a slow or gated handler
-		seq := make([]int, rapid.IntRange(40, 120).Draw(rt, "long_len"))
+		seq := make([]int, rapid.SampledFrom([]int{40, 80, 120, 400}).Draw(rt, "long_len"))
 		for i := range seq {
 			seq[i] = rapid.SampledFrom([]int{0, 1, 3, 4, 5, 6}).Draw(rt, "long_sym")
 		}
@@ -134,6 +135,9 @@ func drawStop(rt *rapid.T, o gen.HistOpt, kinds []string) *StopCase {
 		}
 	}
 	c.Pacing = rapid.IntRange(0, 1).Draw(rt, "pacing")
+	if nsteps > 300 {
+		c.Pacing = PaceFarAhead // lock-step over a thousand packets would take seconds
+	}
 	c.Handler = rapid.IntRange(0, 2).Draw(rt, "handler_mode")
 	if k == "cancel_gate" {
 		c.Handler = HandlerGated
@@ -201,6 +205,19 @@ func TestC05(t *testing.T) {
 			}
 		}
 	}
+	// one long-lived, mostly idle attempt (2.6 s) in one normal and one race-detector shard: periodic
+	// background work of the library (timers, tickers, watchdogs) must be race free and must go away
+	if envShard == 1 || envShard == 12 {
+		c := &StopCase{H: seqHistory([]int{0, 1, 4}, 3), Fault: Fault{Kind: "none"}, IdleMs: 2600}
+		obs, sig, err := checkC05(c)
+		rec.Case(true, c, append(stopClasses(c, obs), "long-lived-idle-attempt")...)
+		if err != nil {
+			rec.Violation("c05", c, sig, err)
+			if !knownSig(sig) {
+				t.Errorf("C05 violation: %v", err)
+			}
+		}
+	}
 	var kinds []string
 	for _, k := range stopKinds {
 		if k != "cancel_dial" {
@@ -231,6 +248,39 @@ func TestC05(t *testing.T) {
 		rec.MarkExhaustive("cause x every stop point x pacing x handler mode (x gated call) on three fixed history shapes (thorough tier)")
 	}
 	rapidCheck(t, func(rt *rapid.T) {
+		parOdds := 14
+		if os.Getenv("VERIF_RACE") == "1" {
+			parOdds = 2 // the race-detector shards are where shared state between streamers becomes visible
+		}
+		if rapid.IntRange(0, parOdds).Draw(rt, "part_parallel") == 0 {
+			// several streamers at once in one process: under the race-detector shards any unsynchronised
+			// state shared between streamers shows up as a race report; everywhere it must not disturb grouping
+			pc := &ParallelCase{}
+			for i, n := 0, rapid.IntRange(2, 3).Draw(rt, "nstreams"); i < n; i++ {
+				seq := make([]int, rapid.IntRange(10, 60).Draw(rt, "par_len"))
+				for j := range seq {
+					seq[j] = rapid.SampledFrom([]int{0, 1, 2, 3, 4, 5, 6, 7, 13}).Draw(rt, "par_sym")
+				}
+				pc.Seqs = append(pc.Seqs, seq)
+				pc.Variants = append(pc.Variants, rapid.IntRange(0, 15).Draw(rt, "par_variant"))
+			}
+			rec.Case(true, pc, "parallel-streamers")
+			if err := checkParallel(pc); err != nil {
+				rec.Violation("c02par", pc, "", err)
+				rt.Fatalf("C05 violation (streamers running in parallel): %v", err)
+			}
+			// and with histories over every column type (decoders run concurrently)
+			po := gen.DefaultHistOpt(limits(), false)
+			po.MaxUnits, po.MaxTables, po.BigBase, po.Scale = 12, 3, false, false
+			po.MaxRows, po.MaxRowsEv = 6, 3
+			po.Col = gen.ColumnOpt{NoHeavy: true}
+			pe := drawParallelE2E(rt, po)
+			if err := checkParallelE2E(pe); err != nil {
+				rec.Violation("c01par", pe, "", err)
+				rt.Fatalf("C05 violation (streamers running in parallel): %v", err)
+			}
+			return
+		}
 		c := drawStop(rt, o, kinds)
 		journal("C05", "c05", c)
 		obs, sig, err := checkC05(c)
